@@ -3,6 +3,7 @@ package v1
 import (
 	"encoding/asn1"
 	"encoding/base64"
+	"time"
 
 	"github.com/wokdav/gopki/generator"
 	"github.com/wokdav/gopki/generator/cert"
@@ -96,3 +97,5 @@ func vGenerate(c CertConfig) (*cert.Certificate, *config.CertificateContent, err
 	}
 	return crt, content, nil
 }
+
+func vFixedFrom() time.Time { return time.Unix(1709640000, 0) }
